@@ -30,7 +30,7 @@ ID = "C29"
 
 GEN = os.path.join(vlib.COQ, "C29", "Gen.v")
 RELEVANT = ("allocate_num_pages", "count")
-TOKEN = re.compile(r"\s*(?:(\d+\.\d*(?:[eE][-+]?\d+)?|\.\d+|\d+[uUlL]*)|([A-Za-z_]\w*)|(->|\+\+|--|<=|>=|==|!=|&&|\|\||&=|\|=|[-+*/%<>=!&|~^(){};,\[\]?:.]))")
+TOKEN = re.compile(r"\s*(?:(\d+\.\d*(?:[eE][-+]?\d+)?|\.\d+|\d+[uUlL]*)|([A-Za-z_]\w*)|(\"(?:[^\"\\]|\\.)*\"|'(?:[^'\\]|\\.)*'|->|\+\+|--|<=|>=|==|!=|&&|\|\||&=|\|=|[-+*/%<>=!&|~^(){};,\[\]?:.]))")
 
 
 def _fail(msg):
@@ -154,8 +154,13 @@ class _Stmts:
             _fail("%r is outside the translated subset" % x)
         if x == "return":
             self.take()
+            val = []
+            while self.peek() != ";":
+                if self.peek() is None:
+                    _fail("missing ';'")
+                val.append(self.take())
             self.take(";")
-            return [("return",)]
+            return [("return", val)]
         out = []
         while self.peek() != ";":
             if self.peek() is None:
